@@ -73,8 +73,8 @@ func look(in *inst) view {
 func NewGen(r *Rng, mode string, quick bool) *G {
 	g := &G{r: r, mode: mode, tried: map[uint64]int{}}
 	g.family = []string{"tree", "tree", "votes", "votes", "update", "update", "prune", "prune", "prune", "sinkfail", "pin", "ood"}[r.Intn(12)]
-	spe := []uint64{4, 4, 4, 2, 3, 8}[r.Intn(6)]
-	e0 := []uint64{0, 0, 0, 1, 2, 5}[r.Intn(6)]
+	spe := []uint64{4, 4, 2, 2, 3, 3, 4, 8}[r.Intn(8)]
+	e0 := []uint64{0, 0, 0, 0, 1, 2, 5}[r.Intn(7)]
 	slot := e0 * spe
 	if r.Chance(12) {
 		slot += uint64(1 + r.Intn(int(spe)))
@@ -110,7 +110,7 @@ func NewGen(r *Rng, mode string, quick bool) *G {
 		}
 	}
 	// candidate blocks
-	nb := 5 + r.Intn(9)
+	nb := 6 + r.Intn(11)
 	type known struct{ root, slot uint64 }
 	kn := []known{{g.ini.AnchorRoot, slot}}
 	next := uint64(2)
@@ -152,6 +152,9 @@ func NewGen(r *Rng, mode string, quick bool) *G {
 	}
 	if quick {
 		g.maxMut = 6 + r.Intn(15)
+		if g.family == "prune" || g.family == "sinkfail" {
+			g.maxMut = 12 + r.Intn(10)
+		}
 	} else {
 		g.maxMut = 10 + r.Intn(50)
 	}
@@ -196,14 +199,26 @@ func (g *G) epochs(v view, slot uint64) (uint64, uint64) {
 		return a - b
 	}
 	// what the state of a block at this slot would typically carry: the previous epoch(s) justified, one less finalized
+	// (never below the epochs the instance started from)
+	e0 := g.ini.FinE
+	atLeast := func(a uint64) uint64 {
+		if a < e0 {
+			return e0
+		}
+		return a
+	}
+	cur := 30
+	if g.family == "prune" || g.family == "sinkfail" || g.family == "update" {
+		cur = 12
+	}
 	switch {
-	case r.Chance(45):
+	case r.Chance(cur):
+	case r.Chance(70):
+		je = atLeast(sub(eb, 1))
+		fe = atLeast(sub(je, uint64(r.Intn(2))))
 	case r.Chance(60):
-		je = sub(eb, 1)
-		fe = sub(je, uint64(r.Intn(2)))
-	case r.Chance(60):
-		je = sub(eb, 1+uint64(r.Intn(2)))
-		fe = sub(je, 1)
+		je = atLeast(sub(eb, 1+uint64(r.Intn(2))))
+		fe = atLeast(sub(je, 1))
 	default:
 		je = []uint64{0, 1, 2, je + 1, je + 2}[r.Intn(5)]
 		fe = []uint64{0, 1, fe + 1, fe}[r.Intn(4)]
@@ -317,6 +332,15 @@ func (g *G) genUpdate(v view) Op {
 	if len(v.refs) > 0 && r.Chance(55) {
 		// what a client does: take a recent node, justify/finalize the checkpoints its state carries, on its own chain
 		tip := v.refs[len(v.refs)-1-r.Intn(min(len(v.refs), 5))]
+		if r.Chance(60) {
+			// the node carrying the most advanced checkpoints
+			for _, x := range v.refs {
+				a, b := v.byRef[x], v.byRef[tip]
+				if a.JustifiedEpoch > b.JustifiedEpoch || (a.JustifiedEpoch == b.JustifiedEpoch && a.FinalizedEpoch > b.FinalizedEpoch) {
+					tip = x
+				}
+			}
+		}
 		n := v.byRef[tip]
 		tj, tf := uint64(n.JustifiedEpoch), uint64(n.FinalizedEpoch)
 		var nj, nf *forkchoice.NodeRef
@@ -501,6 +525,10 @@ func (g *G) Next(in *inst, step int) (Op, bool) {
 	}
 	if len(v.refs) < 4 {
 		wBlock += 60
+	}
+	if (g.family == "prune" || g.family == "sinkfail" || g.family == "update") && g.nmut*2 < g.maxMut {
+		// first build a tree that spans a few epochs
+		wBlock, wSlot, wAtt, wUpd, wPin = 70, 12, 16, 2, 0
 	}
 	tot := wBlock + wSlot + wAtt + wUpd + wPin
 	x := r.Intn(tot)
